@@ -14,7 +14,7 @@ CONFIG = {
         "oracle readers: harness/c09/spec.go (formats 0, 4, 6, 12 written from the OpenType text) and golang.org/x/image/font/sfnt GlyphIndex on Go Regular carrying the encoded table",
     ],
     "assumptions": [
-        "table round trip (P2): proved up to the final assembly step (coq/C09/Proofs_Trt.v: offset loop, record loop, range logic; last lemma parked in Proofs_Trt_final.v.wip); the round trip itself is checked by the oracle on every tenc/tdec case",
+        "table round trip: entries are subtables cmap.Decode can return (wf_entry), at most 65535 records, total size below 2^32",
         "format 4: the emitted subtable fits the 16-bit length field (2*(8+4*segCount+|glyphIdArray|) <= 65535); larger maps are outside the property's quantifier (the Length field wraps silently, DESIGN 5.C)",
         "format 12: keys below 0xFFFFFFFF (the decoder rejects endCharCode = 0xFFFFFFFF), at most 65536 entries",
         "glyph ids are 16 bit (glyph.ID = uint16)",
